@@ -268,6 +268,94 @@ theorem fit2AsCoded_misses_points :
     (fit2AsCoded (0 : ℚ) 40 (1 / 10) 20).1 - (fit2AsCoded (0 : ℚ) 40 (1 / 10) 20).2.1 * (1 / 10) = -160 := by
   norm_num [fit2AsCoded]
 
+/-! #### three-point curves: EPANET's closed form as the start of `scipy.optimize.curve_fit` -/
+
+/-- `A0 = H[0]`, `C0 = log((H0−H1)/(H0−H2)) / log(Q1/Q2)`, `B0 = (H0−H1)/Q1^C0` — the start values `get_head_curve_coefficients`
+hands to `curve_fit` for 3+ points (EPANET's three-point formula; `Q[0]` does not enter) -/
+noncomputable def fit3Closed (Q1 Q2 H0 H1 H2 : ℝ) : ℝ × ℝ × ℝ :=
+  let C := Real.log ((H0 - H1) / (H0 - H2)) / Real.log (Q1 / Q2)
+  (H0, (H0 - H1) / Q1 ^ C, C)
+
+/-- sum of squared residuals of `H = A − B·Q^C` on curve points -/
+noncomputable def fitSSE (pts : List (ℝ × ℝ)) (x : ℝ × ℝ × ℝ) : ℝ :=
+  (pts.map fun p => (x.1 - x.2.1 * p.1 ^ x.2.2 - p.2) ^ 2).sum
+
+/-- **`headPumpFit_3pt_zero_first`**: when the first curve point is at zero flow (`Q0 = 0`), `0 < Q1 < Q2`, `H0 > H1 > H2`, the
+closed form passes through all three points (so it is already the least-squares solution, residual 0) -/
+theorem headPumpFit_3pt_zero_first {Q1 Q2 H0 H1 H2 : ℝ} (hQ1 : 0 < Q1) (hQ12 : Q1 < Q2) (h01 : H1 < H0) (h12 : H2 < H1) :
+    let x := fit3Closed Q1 Q2 H0 H1 H2
+    0 < x.2.2 ∧ x.1 - x.2.1 * (0 : ℝ) ^ x.2.2 = H0 ∧ x.1 - x.2.1 * Q1 ^ x.2.2 = H1 ∧ x.1 - x.2.1 * Q2 ^ x.2.2 = H2 := by
+  have hQ2 : 0 < Q2 := lt_trans hQ1 hQ12
+  have h02 : H2 < H0 := lt_trans h12 h01
+  have hr0 : 0 < (H0 - H1) / (H0 - H2) := div_pos (by linarith) (by linarith)
+  have hr1 : (H0 - H1) / (H0 - H2) < 1 := by rw [div_lt_one (by linarith)]; linarith
+  have hq0 : 0 < Q1 / Q2 := div_pos hQ1 hQ2
+  have hq1 : Q1 / Q2 < 1 := by rw [div_lt_one hQ2]; exact hQ12
+  have hlr : Real.log ((H0 - H1) / (H0 - H2)) < 0 := Real.log_neg hr0 hr1
+  have hlq : Real.log (Q1 / Q2) < 0 := Real.log_neg hq0 hq1
+  have hC : 0 < Real.log ((H0 - H1) / (H0 - H2)) / Real.log (Q1 / Q2) := div_pos_of_neg_of_neg hlr hlq
+  have hQ1C : 0 < Q1 ^ (Real.log ((H0 - H1) / (H0 - H2)) / Real.log (Q1 / Q2)) := Real.rpow_pos_of_pos hQ1 _
+  refine ⟨hC, ?_, ?_, ?_⟩
+  · simp only [fit3Closed, Real.zero_rpow hC.ne']; ring
+  · simp only [fit3Closed]; field_simp; ring
+  · simp only [fit3Closed]
+    -- Q2^C = Q1^C · (Q2/Q1)^C and (Q1/Q2)^C = (H0−H1)/(H0−H2)
+    have hpow : (Q1 / Q2) ^ (Real.log ((H0 - H1) / (H0 - H2)) / Real.log (Q1 / Q2)) = (H0 - H1) / (H0 - H2) := by
+      rw [Real.rpow_def_of_pos hq0, mul_div_cancel₀ _ hlq.ne, Real.exp_log hr0]
+    have hsplit : (Q1 / Q2) ^ (Real.log ((H0 - H1) / (H0 - H2)) / Real.log (Q1 / Q2)) =
+        Q1 ^ (Real.log ((H0 - H1) / (H0 - H2)) / Real.log (Q1 / Q2)) /
+          Q2 ^ (Real.log ((H0 - H1) / (H0 - H2)) / Real.log (Q1 / Q2)) := Real.div_rpow hQ1.le hQ2.le _
+    have hQ2C : 0 < Q2 ^ (Real.log ((H0 - H1) / (H0 - H2)) / Real.log (Q1 / Q2)) := Real.rpow_pos_of_pos hQ2 _
+    rw [hsplit] at hpow
+    have h02' : H0 - H2 ≠ 0 := by linarith
+    have key : (H0 - H1) / Q1 ^ (Real.log ((H0 - H1) / (H0 - H2)) / Real.log (Q1 / Q2)) *
+        Q2 ^ (Real.log ((H0 - H1) / (H0 - H2)) / Real.log (Q1 / Q2)) = H0 - H2 := by
+      field_simp at hpow ⊢
+      nlinarith [hpow]
+    linarith
+
+/-- `scipy.optimize.curve_fit` is a PARAMETER: all that is assumed is that it does not return a worse fit than its start values -/
+def CurveFitContract (curveFit : List (ℝ × ℝ) → ℝ × ℝ × ℝ → ℝ × ℝ × ℝ) : Prop :=
+  ∀ pts x0, fitSSE pts (curveFit pts x0) ≤ fitSSE pts x0
+
+/-- hence, for every such `curve_fit`, a three-point curve that starts at zero flow is reproduced by the coefficients
+`get_head_curve_coefficients` returns (the fitted curve passes through its three points) -/
+theorem headPumpFit_3pt_curve_fit (curveFit : List (ℝ × ℝ) → ℝ × ℝ × ℝ → ℝ × ℝ × ℝ) (hfit : CurveFitContract curveFit)
+    {Q1 Q2 H0 H1 H2 : ℝ} (hQ1 : 0 < Q1) (hQ12 : Q1 < Q2) (h01 : H1 < H0) (h12 : H2 < H1) :
+    let pts := [((0 : ℝ), H0), (Q1, H1), (Q2, H2)]
+    let x := curveFit pts (fit3Closed Q1 Q2 H0 H1 H2)
+    ∀ p ∈ pts, x.1 - x.2.1 * p.1 ^ x.2.2 = p.2 := by
+  intro pts x
+  obtain ⟨-, e0, e1, e2⟩ := headPumpFit_3pt_zero_first hQ1 hQ12 h01 h12
+  have hstart : fitSSE pts (fit3Closed Q1 Q2 H0 H1 H2) = 0 := by
+    simp only [fitSSE, pts, List.map_cons, List.map_nil, List.sum_cons, List.sum_nil, e0, e1, e2]; ring
+  have hle : fitSSE pts x ≤ 0 := hstart ▸ hfit pts _
+  have hsum : (x.1 - x.2.1 * (0 : ℝ) ^ x.2.2 - H0) ^ 2 + ((x.1 - x.2.1 * Q1 ^ x.2.2 - H1) ^ 2 +
+      ((x.1 - x.2.1 * Q2 ^ x.2.2 - H2) ^ 2 + 0)) ≤ 0 := by
+    simpa [fitSSE, pts] using hle
+  have s0 := sq_nonneg (x.1 - x.2.1 * (0 : ℝ) ^ x.2.2 - H0)
+  have s1 := sq_nonneg (x.1 - x.2.1 * Q1 ^ x.2.2 - H1)
+  have s2 := sq_nonneg (x.1 - x.2.1 * Q2 ^ x.2.2 - H2)
+  have z0 : (x.1 - x.2.1 * (0 : ℝ) ^ x.2.2 - H0) ^ 2 = 0 := by linarith
+  have z1 : (x.1 - x.2.1 * Q1 ^ x.2.2 - H1) ^ 2 = 0 := by linarith
+  have z2 : (x.1 - x.2.1 * Q2 ^ x.2.2 - H2) ^ 2 = 0 := by linarith
+  intro p hp
+  simp only [pts, List.mem_cons, List.mem_nil_iff, or_false] at hp
+  rcases hp with rfl | rfl | rfl
+  · have := pow_eq_zero_iff (n := 2) (by norm_num) |>.1 z0; linarith
+  · have := pow_eq_zero_iff (n := 2) (by norm_num) |>.1 z1; linarith
+  · have := pow_eq_zero_iff (n := 2) (by norm_num) |>.1 z2; linarith
+
+/-- the closed form alone is NOT enough when the first point has positive flow (what seeded change C02-1 relied on): it returns
+`A = H0` although `H0` belongs to `Q0 > 0`, so the curve misses its first point whenever `B > 0` -/
+theorem fit3Closed_misses_positive_first {Q0 Q1 Q2 H0 H1 H2 : ℝ} (hQ0 : 0 < Q0) (hQ1 : 0 < Q1) (h01 : H1 < H0) :
+    let x := fit3Closed Q1 Q2 H0 H1 H2
+    x.1 - x.2.1 * Q0 ^ x.2.2 < H0 := by
+  simp only [fit3Closed]
+  have : 0 < (H0 - H1) / Q1 ^ (Real.log ((H0 - H1) / (H0 - H2)) / Real.log (Q1 / Q2)) * Q0 ^ (Real.log ((H0 - H1) / (H0 - H2)) / Real.log (Q1 / Q2)) :=
+    mul_pos (div_pos (by linarith) (Real.rpow_pos_of_pos hQ1 _)) (Real.rpow_pos_of_pos hQ0 _)
+  linarith
+
 /-- **power pump**: the row is `P + (H_start − H_end)·q·γ` (`γ = 9.81·1000`), so `row = 0` means the pump delivers its power -/
 theorem powerPump_law (env : Env ℝ) (lit : RowLits) (L : Leaves)
     (h0 : eval realOps env (powerPumpRow lit L) = 0) :
